@@ -386,7 +386,7 @@ pub fn run_c08(ctx: &Ctx) -> (Report, String) {
             extra.push((w, h));
         }
         // boundary-value ladder: one dimension around powers of two up to 2^17, the other tiny
-        for d in [8191usize, 8192, 8193, 16383, 16385, 32767, 32769, 65534, 65535, 65536, 65537, 131071, 131073, 262143, 262145, 524287, 524289, 1048575, 1048577] {
+        for d in [8191usize, 8192, 8193, 16383, 16385, 32767, 32769, 65534, 65535, 65536, 65537, 131071, 131072, 131073, 262143, 262144, 262145, 524287, 524288, 524289, 1048575, 1048576, 1048577] {
             for s in [1usize, 2, 3] {
                 extra.push((d, s));
                 extra.push((s + 3, d));
